@@ -107,6 +107,7 @@ theorem sendToSession_did_aux (w w' : World δ) (S : Session δ) (ev : Event δ)
     split at h
     · cases h; exact .err _ (Or.inl rfl)
     · cases h; exact .ext sid T hl
+#assert_axioms sendToSession_did_aux
 
 theorem C15_route_did (w w' : World δ) (S S' : Session δ) (target : Str) (ev : Event δ) (ok : Bool)
     (hS : lookup w S.sid = some S') (h : routeSend w S target ev = .done w' ok) :
@@ -173,6 +174,7 @@ theorem location_route_aux (w : World δ) (R : Session δ) (n : Nat) (T : Sessio
   unfold routeSend
   simp only [h1, h2, h3, h4, h5, if_false, if_true, parseU32_showNat n hn, sendToSession, hl, hd]
   simp
+#assert_axioms location_route_aux
 
 theorem C15_targets : C15_targets_full := by
   intro δ w S ev
@@ -240,6 +242,7 @@ theorem genId_platform_aux (st1 st2 : Str) (n m : Nat) (h : genId st1 n = genId 
     omega
   have := append_dot_cancel _ _ _ _ (hd n) (hd m) hr
   exact showNat_injective (List.reverse_inj.1 this)
+#assert_axioms genId_platform_aux
 
 theorem C15d : C15d_full := by
   refine ⟨?_, genId_platform_aux, ?_⟩
